@@ -112,6 +112,81 @@ def make_hook(axis_alias=None):
     return hook
 
 
+QP = sp.Function("QP", real=True)          # QP(axis, i): coordinate of grid point i on axis `axis` (axis may be a run-time value)
+DELTA = sp.Function("DELTA", real=True)    # DELTA(axis): cell size of that axis
+
+
+def _axis_subscript(obj, scanner=None, depth=0):
+    """obj denotes *_axis[e] (directly, dereferenced, through getAxis(e), or through a local reference/pointer bound to it) -> node of e"""
+    if obj is None:
+        return None
+    o = A.strip(obj, casts=False)
+    while o.get("k") in ("UnaryOperator",) and o.get("op") == "*":
+        o = A.strip(o["c"][0], casts=False)
+    while o.get("k") == "CXXOperatorCallExpr" and o.get("op") in ("*", "->") and o.get("args"):
+        o = A.strip(o["args"][0], casts=False)
+    if o.get("k") == "CXXMemberCallExpr" and (o.get("callee") or "").endswith("::get") and A.call_object(o) is not None:
+        return _axis_subscript(A.call_object(o), scanner, depth)
+    if o.get("k") == "ArraySubscriptExpr" and A.this_field(o["c"][0]) == "_axis":
+        return o["c"][1]
+    if o.get("k") == "CXXOperatorCallExpr" and o.get("op") == "[]" and A.this_field(o["args"][0]) == "_axis":
+        return o["args"][1]
+    if o.get("k") == "CXXMemberCallExpr" and (o.get("callee") or "") == "vfps::PhaseSpace::getAxis" and (A.call_object(o) is None or A.is_this(A.call_object(o))):
+        return o["args"][0]
+    d = A.declref(o)
+    if d is not None and scanner is not None and depth < 3:
+        loc = scanner.locals.get(d.get("decl"))
+        if loc is not None and "init" in loc and scanner.assigned.get(d["decl"], 0) == 0:
+            return _axis_subscript(loc["init"], scanner, depth + 1)
+    return None
+
+
+def make_axis_hook(get_scanner):
+    """PhaseSpace's own coordinate accessors and the Ruler calls they wrap, in one vocabulary:
+    _qp(a,i) and _axis[a]->at(i) -> QP(a,i);  getDelta(a) and _axis[a]->delta() -> DELTA(a).
+    The equivalence is the body of the accessors, re-read by axis_lemmas()."""
+    def hook(n, tr):
+        if n.get("k") != "CXXMemberCallExpr":
+            return None
+        callee = n.get("callee") or ""
+        obj = A.call_object(n)
+        own = obj is None or A.is_this(obj)
+        try:
+            if callee == "vfps::PhaseSpace::_qp" and own:
+                return QP(tr.conv(n["args"][0]), tr.conv(n["args"][1]))
+            if callee == "vfps::PhaseSpace::getDelta" and own:
+                return DELTA(tr.conv(n["args"][0]))
+            if callee.startswith("vfps::Ruler") and callee.split("::")[-1] in ("at", "operator[]", "delta"):
+                e = _axis_subscript(obj, get_scanner())
+                if e is None:
+                    return None
+                if callee.endswith("::delta"):
+                    return DELTA(tr.conv(e))
+                return QP(tr.conv(e), tr.conv(n["args"][0]))
+        except Exception:
+            return None
+        return None
+    return hook
+
+
+def axis_lemmas(chk, prog, rule="L"):
+    """_qp(axis,n) is _axis[axis]->at(n) and getDelta(x) is _axis[x]->delta(): read from the accessor bodies"""
+    for nm, meth in (("_qp", "at"), ("getDelta", "delta")):
+        f = prog.fn("vfps::PhaseSpace::" + nm)
+        r = _single_return(f)
+        ok = False
+        if r is not None:
+            c = A.strip(r)
+            if c.get("k") == "CXXMemberCallExpr" and (c.get("callee") or "").startswith("vfps::Ruler") and (c.get("callee") or "").endswith("::" + meth):
+                e = _axis_subscript(A.call_object(c))
+                pd = A.declref(e) if e is not None else None
+                ok = pd is not None and pd.get("decl") == f["params"][0]["decl"]
+                if ok and meth == "at":
+                    ad = A.declref(c["args"][0])
+                    ok = ad is not None and ad.get("decl") == f["params"][1]["decl"]
+        chk.check(ok, rule, f.where, "PhaseSpace::%s(a, ...) is _axis[a]->%s(...)" % (nm, meth), "PhaseSpace::%s:body" % nm)
+
+
 def _single_return(fn):
     body = fn.get("body")
     if not body or body["k"] != "CompoundStmt" or len(body.get("c", [])) != 1:
